@@ -254,6 +254,7 @@ Forms ==
     Std("g-zerodi", "zerodi", "", 0, "", NoAt),               \* a literal is not a prefix pattern
     Std("g-erodiv?", "?erodiv?", "", 0, "", NoAt),            \* `?` is exactly one character
     Std("g-null*r", "n**r", "", 0, "", NoAt),
+    Std("g-*lPointer", "*lPointer", "", 0, "", NoAt),         \* the first `l` of nullPointer is not the one the `*` must stop at
     \* ---- id:file
     Std("f-zd-f0", "zerodiv", "f0.c", 0, "", Own("f0.c", 1)),
     Std("f-zd-f1", "zerodiv", "f1.c", 0, "", Own("f1.c", 1)),
@@ -299,6 +300,7 @@ Forms ==
     Std("w-zd-6", "zerodiv", "f0.c", 6, "", NoAt),                          \* the line after
     Std("w-zd-8", "zerodiv", "f0.c", 8, "", Own("f0.c", 6)),                \* a comment put before other code
     Std("w-zd-3", "zerodiv", "f0.c", 3, "", NoAt),
+    Std("w-zd-16", "zerodiv", "f0.c", 16, "", Own("f0.c", 15)),             \* before the #define: not the line after it
     Std("w-zd-f1-5", "zerodiv", "f1.c", 5, "", NoAt),                       \* right line number, other file
     Std("w-np-h3", "nullPointer", "inc/h.h", 3, "", Own("inc/h.h", 2)),     \* right line, other id
     \* ---- symbol names (XML and inline only)
@@ -594,7 +596,7 @@ Meta == IF Mode # "gen" THEN <<>> ELSE
    snips   |-> SetToSeq(Snips),
    palette |-> SetToSeq({[snip |-> f.snip, file |-> f.file, line |-> f.line, col |-> f.col, id |-> f.id,
                           syms |-> SetToSeq(f.syms), style |-> f.style] : f \in Palette}),
-   forms   |-> [i \in 1..NF |-> [n |-> FormList[i].n, k |-> FormList[i].k, surfaces |-> SetToSeq(Surfaces(FormList[i]))]],
+   forms   |-> [i \in 1..NF |-> [n |-> FormList[i].n, k |-> FormList[i].k, file |-> FormList[i].file, surfaces |-> SetToSeq(Surfaces(FormList[i]))]],
    nofail  |-> SetToSeq(NoFailSets),
    fills   |-> SetToSeq(Fills),
    maxvar  |-> MaxVar]
@@ -788,7 +790,7 @@ ASSUME Mode = "judge" =>
 (* symbol names, names of the macros used on its line.                      *)
 (***************************************************************************)
 UIdPats   == {"zerodiv", "nullPointer", "uninitvar", "*", "zero*", "*div", "*Pointer", "null*", "z?rodiv", "zerodi", "zerodivx",
-              "?erodiv", "*o*", "**", "nullPointer*", "?", "zero**", "*z*d*", "zerodiv*", "??????v", "zero?*", "n**r", "z**v", "**div", "**r"}
+              "?erodiv", "*o*", "**", "nullPointer*", "?", "zero**", "*z*d*", "zerodiv*", "??????v", "zero?*", "n**r", "z**v", "**div", "**r", "*ndantCheck", "*lPointer", "*di*", "z*v"}
 UFIds     == {"zerodiv", "nullPointer", "nullPointerRedundantCheck", "uninitvar", "zerodivcond", "v"}
 UFilePats == {"", "f0.c", "f1.c", "inc/h.h", "h.h", "*.c", "*.h", "f?.c", "inc/*.h", "inc/*", "**.h", "**/h.h", "inc", "in",
               "./f0.c", "./inc/h.h", "*", "**", "i*/h.h", "inc/h.?", "inc/sub", "inc/**", "*/h.h", "f0.?", "f0.c*", "src/f0.c",
